@@ -2982,7 +2982,9 @@ class _DelayedExpr(Expr):
 
 @normalize_token.register(Expr)
 def normalize_expression(expr):
-    return expr._name
+    # Tag the token so that an expression operand can never tokenize like a
+    # plain string operand that happens to equal the expression's name
+    return "dask_expr.Expr", expr._name
 
 
 def optimize_until(expr: Expr, stage: core.OptimizerStage) -> Expr:
